@@ -802,6 +802,18 @@ func (ex *Exec) chanRecv(st *State, ch Val, n ast.Node) Val {
 	}
 	// event: received from channel; blocks until closed or sent. Recorded in the ghost trace.
 	ex.traceEvent(st, "recv", o.ID)
+	// the value received may have been sent by any goroutine: unconstrained (struct{} channels carry nothing)
+	if ue, ok := n.(*ast.UnaryExpr); ok {
+		if ct, ok := ex.info.TypeOf(ue.X).Underlying().(*types.Chan); ok {
+			k := kindOf(ct.Elem())
+			if !(k.K == "struct" && len(k.Fields) == 0) {
+				ex.nullableResults = true
+				v := ex.freshVal(st, k, "recv")
+				ex.nullableResults = false
+				return v
+			}
+		}
+	}
 	return SV{T: Zero}
 }
 
